@@ -561,7 +561,7 @@ func (g *gen) rawExpr(k kind, depth int, class string) string {
 					}
 					return "pathFor(" + g.expr(kStr, depth-1, "go-helper-arg") + ")"
 				}
-				if g.pct("envhelper", 15) {
+				if g.pct("envhelper", 30) {
 					// the process environment is the harness's (TestMain sets VERIF_ENV_A and never sets VERIF_ENV_MISSING)
 					g.feat("env_helper")
 					if g.pct("envor", 60) {
